@@ -86,6 +86,7 @@ package scs
 //@   trusted "not yet verified: goes through Add"
 //@   assigns *builder.cs, *builder.mtBooleans
 //@   ensures len(in) == 0 ==> denS(builder, result) == fsub(denS(builder, i1), denS(builder, i2))
+//@   ensures len(in) == 1 ==> denS(builder, result) == fsub(fsub(denS(builder, i1), denS(builder, i2)), denS(builder, in[0]))
 //@ contract (*builder).Mul
 //@   trusted "not yet verified: n-ary product splitting with gate re-use"
 //@   assigns *builder.cs, *builder.mtBooleans
@@ -136,6 +137,44 @@ package scs
 //@   assigns *builder.cs, *builder.mtBooleans
 //@   requires wfB(builder)
 //@   ensures @different denS(builder, i1) != denS(builder, i2)
+
+// ---- comparison with a constant (the modulus check of ToBinary). hiS(b, s, i) = sum_{k >= i} [s[k] == 1] * 2^(k-i) is
+// the integer the bits s[i:] spell (uninterpreted; unfolded one digit at a time by the two lemmas), bhi(x, i) =
+// floor(x / 2^i). Top-down induction: p[i] is boolean and says whether the bits above i equal those of the bound;
+// where they do, a bit at a zero position of the bound is forced to zero, otherwise only to be boolean.
+//@ spec func hiS(b *builder, s []Variable, i int) int
+//@ spec func samePrefix(b *builder, s []Variable, e []Variable) bool = forall k int :: 0 <= k && k < len(e) ==> denS(b, s[k]) == denS(b, e[k])
+//@ spec func zeroAbove(b *builder, s []Variable, e []Variable) bool = forall k int :: len(e) <= k && k < len(s) ==> denS(b, s[k]) == f0
+//@ contract (*builder).MustBeLessOrEqCst
+//@   props C05
+//   (aBits: the padding loop appends into the spare capacity of the caller's slice)
+//@   assigns *builder.cs, *builder.mtBooleans, aBits
+//@   requires wfB(builder) && bound != nil
+//@   ensures @bits-bool forall k int :: 0 <= k && k < len(aBits) ==> isBool(denS(builder, aBits[k]))
+//@   ensures @below-bound hiS(builder, aBits, 0) <= *bound
+//@   loop 1 invariant @pad len(entry(aBits)) <= nbBits && i == len(aBits) && len(entry(aBits)) <= i && wfB(builder)
+//   (an append in place writes above the caller's bits: same array means same origin)
+//@   loop 1 invariant @pad-alias alloc(aBits) == alloc(entry(aBits)) ==> aBits[:0] == entry(aBits)[:0]
+//@   loop 1 invariant @pad-prefix samePrefix(builder, aBits, entry(aBits))
+//@   loop 1 invariant @pad-zero zeroAbove(builder, aBits, entry(aBits))
+//   zero digits above the caller's bits do not change the number
+//@   loop 2 lemma @pad-hi samePrefix(builder, aBits, entry(aBits)) && zeroAbove(builder, aBits, entry(aBits)) ==> hiS(builder, aBits, 0) == hiS(builder, entry(aBits), 0)
+//@   loop 2 invariant @pad-kept len(aBits) == nbBits && len(entry(aBits)) <= nbBits && hiS(builder, aBits, 0) == hiS(builder, entry(aBits), 0) && samePrefix(builder, aBits, entry(aBits))
+//@   loop 2 invariant @ones 0 <= i && i <= nbBits && t == i && forall k int :: 0 <= k && k < t ==> bigBit(*bound, k) == 1
+//@   loop 3 invariant @range t - 1 <= i && i < nbBits && len(p) == nbBits + 1 && denS(builder, p[nbBits]) == f1 && wfB(builder)
+//@   loop 3 invariant @pad-kept len(aBits) == nbBits && len(entry(aBits)) <= nbBits && hiS(builder, aBits, 0) == hiS(builder, entry(aBits), 0) && samePrefix(builder, aBits, entry(aBits))
+//@   loop 3 invariant @p-rec forall k int :: i < k && k < nbBits ==> denS(builder, p[k]) == (bigBit(*bound, k) == 0 ? denS(builder, p[k+1]) : fmul(denS(builder, p[k+1]), denS(builder, aBits[k])))
+//@   loop 4 invariant @range 0 - 1 <= i && i < nbBits && wfB(builder)
+//@   loop 4 invariant @pad-kept len(aBits) == nbBits && len(entry(aBits)) <= nbBits && hiS(builder, aBits, 0) == hiS(builder, entry(aBits), 0) && samePrefix(builder, aBits, entry(aBits))
+//@   loop 4 invariant @ones-kept 0 <= t && t <= nbBits && forall k int :: 0 <= k && k < t ==> bigBit(*bound, k) == 1
+//@   loop 4 invariant @p-kept len(p) == nbBits + 1 && forall k int :: t <= k && k < nbBits ==> denS(builder, p[k]) == (bigBit(*bound, k) == 0 ? denS(builder, p[k+1]) : fmul(denS(builder, p[k+1]), denS(builder, aBits[k])))
+//@   loop 4 invariant @bools forall k int :: i < k && k < nbBits ==> isBool(denS(builder, aBits[k]))
+//@   loop 4 invariant @le hiS(builder, aBits, i + 1) <= bhi(*bound, i + 1)
+//@   loop 4 invariant @lex-bool i + 1 >= t ==> isBool(denS(builder, p[i+1]))
+//@   loop 4 invariant @lex-eq i + 1 >= t && denS(builder, p[i+1]) == f1 ==> hiS(builder, aBits, i + 1) == bhi(*bound, i + 1)
+//@   loop 4 invariant @lex-lt i + 1 >= t && denS(builder, p[i+1]) == f0 ==> hiS(builder, aBits, i + 1) < bhi(*bound, i + 1)
+//@   loop 4 lemma @hi-top hiS(builder, aBits, len(aBits)) == 0
+//@   loop 4 lemma @hi-unfold i >= 0 && isBool(denS(builder, aBits[i])) ==> hiS(builder, aBits, i) == (denS(builder, aBits[i]) == f1 ? 1 : 0) + 2 * hiS(builder, aBits, i + 1)
 
 // debug information only (symbolic stack, printable terms): emits no constraint, writes only what it allocates
 //@ contract (*builder).newDebugInfo
